@@ -30,7 +30,7 @@ RULE = ("complete enumeration of (1) all inheritance graphs on n named entries w
 WIT = ["inherit_ok", "inherit_missing_parent", "inherit_cycle", "inherit_excluded_key_skipped", "inherit_diamond_or_chain",
        "range_len1", "range_len2", "range_len3plus", "count_group", "two_groups", "rejected_declaration",
        "inherited_range_ignored", "access_subset", "uniform", "const", "normal", "expon", "malformed_spec_rejected",
-       "builtin_class_resolved", "user_class_resolved", "class_error_reported", "legacy_key_equal", "legacy_both_rejected"]
+       "builtin_class_resolved", "user_class_resolved", "class_error_reported", "legacy_key_equal", "legacy_both_rejected", "class_resolution_sequences"]
 
 # ---------------------------------------------------------------------------------------------- 1
 
@@ -317,7 +317,8 @@ def class_cases():
         for name, obj in sorted(vars(mod).items()):
             if inspect.isclass(obj) and not name.startswith("_"):
                 out.append(("builtin", mod.__name__, name))
-    out += [("user", None, "UserX"), ("unknown", None, "Nope"), ("unknown_with_list", None, "Nope"),
+    out += [("sequence", None, "UserX"), ("sequence", None, "FCNAgent"), ("sequence", None, "Market"),
+            ("user", None, "UserX"), ("unknown", None, "Nope"), ("unknown_with_list", None, "Nope"),
             ("dup_user", None, "UserX"), ("clash", None, "Market")]
     return out
 
@@ -334,6 +335,42 @@ def class_fn(case, wit):
         if got is not obj:
             raise Violation("C18.class_builtin", "a public pams class name resolves to another class", "%s.%s -> %r" % (modname, name, got))
         wit.inc("builtin_class_resolved")
+    elif kind == "sequence":
+        # the same name resolved several times in one process against different registered-class lists
+        if name == "UserX":
+            class _Other(Agent):
+                def submit_orders(self, markets):
+                    return []
+            _Other.__name__ = "UserX"
+            a = find_class("UserX", [UserX])
+            b = find_class("UserX", [_Other])
+            if a is not UserX or b is not _Other:
+                raise Violation("C18.class_user", "a registered user class does not resolve to the class registered with THIS runner",
+                                "first %r then %r" % (a, b))
+            for args in (("UserX", None), ("UserX", []), ("UserX", [UserX, _Other])):
+                try:
+                    got = find_class(*args)
+                except AttributeError:
+                    continue
+                raise Violation("C18.class_ambiguous", "an unknown or ambiguous class name was resolved instead of reported",
+                                "after earlier resolutions of the same name: %r -> %r" % (args[1], got))
+        else:
+            builtin = find_class(name)
+
+            class _Shadow(Agent):
+                def submit_orders(self, markets):
+                    return []
+            _Shadow.__name__ = name
+            try:
+                got = find_class(name, [_Shadow])
+            except AttributeError:
+                got = None
+            if got is not None:
+                raise Violation("C18.class_ambiguous", "an unknown or ambiguous class name was resolved instead of reported",
+                                "built-in %s resolved first, then a registered class of the same name -> %r" % (name, got))
+            if find_class(name) is not builtin:
+                raise Violation("C18.class_builtin", "a public pams class name resolves to another class", name)
+        wit.inc("class_resolution_sequences")
     elif kind == "user":
         if find_class("UserX", [UserX]) is not UserX:
             raise Violation("C18.class_user", "a registered user class does not resolve", "")
